@@ -48,7 +48,13 @@ ASSUMPTIONS = [
 FRAGMENTS = ["double", "double4", "double16", "cdouble", "doubled", "mydouble",
              "1.0", "1.", "0.5", ".5", "1e3", "1.5e-3", "3.f", "1.0L", "x1e3", "a.b", "s.e3", "0x1.8p3",
              "37", "0", "03.05.67", "sin", "pow", "mysin", '"1.0 double"', "/* 1.0 double */", "// 2.5",
-             '"a \\"double\\" 0.5"']        # a string literal containing escaped quotes
+             '"a \\"double\\" 0.5"',        # a string literal containing escaped quotes
+             # non-code regions that SPAN LINES: a block comment over three lines, a string literal continued with
+             # backslash-newline, a // comment continued onto the next line by a backslash-newline
+             "/* a double\n 1.0 sqrt(2)\n double */",
+             '"1.0 \\\ndouble sqrt(2)"',
+             "// 2.5 double \\\n1.0 double sqrt(2)"]
+SPANNING = FRAGMENTS[-3:]
 SEPS_ALL = ["", " ", ",", "(", ")", "*", "\n", ";", "-", "+"]
 SEPS_3 = [" ", ",", "("]
 SEPS_2 = [" ", ","]
@@ -59,6 +65,13 @@ BOUNDS = {
                  "numeric": "float32 (single=True models) and long double (all) vs double at q=0.011,0.07,0.31, defaults"},
 }
 CASE_TIMEOUT = 900
+
+# "built kernel vs its own single-point evaluations" with dispersity and a cutoff menu (every built precision)
+CUTOFF_MODELS_QUICK = ["sphere", "core_shell_sphere", "cylinder", "ellipsoid", "hollow_cylinder"]
+CUTOFFS = [0.0, 1e-5, 1e-2, "gap"]      # "gap": inside the widest gap between the sorted mesh weights near the median
+PD_ONE = {"n": 40, "width": 0.2, "nsigma": 4.0}
+PD_TWO = {"n": 10, "width": 0.2, "nsigma": 3.0}
+U = {"float32": 2.0 ** -24, "float64": 2.0 ** -53, "longdouble": 2.0 ** -53}   # the reference itself sums in double
 
 KEYWORDS = {"double": "", "double2": "2", "double4": "4", "double8": "8", "double16": "16"}
 MATH = set("sin cos tan asin acos atan sinh cosh tanh asinh acosh atanh atan2 exp exp2 exp10 expm1 log log2 log10 log1p "
@@ -71,6 +84,9 @@ TOL32, TOL128 = 1e-5, 1e-12
 SEP_NAME = {",": "after-comma", " ": "after-space", "(": "after-open-paren", ")": "after-close-paren", "*": "after-star",
             "\n": "after-newline", ";": "after-semicolon", "-": "after-minus", "+": "after-plus", "\t": "after-tab",
             "/": "after-comment", '"': "after-string", "": "at-start"}
+
+_CONTINUED_LINE_COMMENT = re.compile(r"//[^\n]*\\\n")
+
 
 def _ident_then_constant(toks):
     """identifier immediately followed (no white space) by a pp-number: only possible for '.digit...'"""
@@ -107,6 +123,11 @@ SNIPPETS = [
     "for (int i=0; i<10; i++) { total += 0.5*w[i]*f(0.5*(z[i]+1.0)); }",
     "x = a.b + p->c + s.e3 + 1.f + 2.0F + 3.L + 0x1.8p3 + 0x10 + 017 + 10u + 1ul;",
     "double f(double x,double y);double g(double x){return x;}",
+    "/* Version 1.0.8 of the helper.\n * Takes a double and returns 2.5 times its value (see eq. 3.1e-2), it's sqrt(2).\n */\n"
+    "double helper(double x) { return 2.5*x; } /* one-line: double 1.5 */",
+    'const char *msg = "a double is 8.0 bytes \\\nand stays a double with 1.0 here"; double y = 1.0;',
+    "char c = '\\\n1'; double z = .5; // trailing double 1.0 \\\n still comment double 2.0\ndouble w = 2.0;",
+    "#define TWO 2.0 /* a comment inside a directive\n   over two lines: double 1.0 */ + 1.0\ndouble t = TWO;",
 ]
 DIRECTIVES = ['#include "%s"', "#include <%s>", '#line 3 "%s"', '# include "%s"', "#define X %s", "#define X(a) (a)+%s",
               "#if %s", "  #define Y %s"]
@@ -156,12 +177,27 @@ def cases(ctx):
         for f in FRAGMENTS:
             for g in FRAGMENTS:
                 out.append({"kind": "seq", "len": 4, "prefix": [f, g], "seps": "two"})
+    for m in (CUTOFF_MODELS_QUICK if ctx.quick else _cutoff_models()):
+        npd = len(_pd_names(build.info(m)))
+        out.append({"kind": "cutoff", "model": m, "pd": "one"})
+        if npd >= 2:
+            out.append({"kind": "cutoff", "model": m, "pd": "two"})
     flagged = _flag_models()
     for key, m in sorted(flagged.items()):
         out.append({"kind": "dtype", "model": m, "flags": key})
     out.append({"kind": "e2e", "model": "sphere"})
     out.append({"kind": "e2e", "model": flagged.get("single=False,opencl=True", "sphere")})
     return out
+
+
+def _pd_names(info):
+    return [p.name for p in info.parameters.call_parameters
+            if p.name in info.parameters.pd_1d and not p.name[-1].isdigit()]
+
+
+def _cutoff_models():
+    """every model declared safe for single precision that has a dispersible parameter"""
+    return [m for m in build.compiled_models() if build.info(m).single and _pd_names(build.info(m))]
 
 
 def _flag_models():
@@ -329,6 +365,9 @@ class Block(object):
                 fk = {"clause": v.clause}
                 if v.context is not None:
                     fk["context"] = v.context
+                if _CONTINUED_LINE_COMMENT.search(src):
+                    # C splices lines before it removes comments: the next physical line belongs to the // comment
+                    fk["noncode"] = "continued-line-comment"
                 key = tuple(sorted(fk.items()))
                 r.extra["violating-strings:" + v.clause] += 1
                 if key not in self.first:
@@ -372,6 +411,8 @@ def run_case(case, ctx):
         return _run_dtype(case, ctx)
     if kind == "e2e":
         return _run_e2e(case, ctx)
+    if kind == "cutoff":
+        return _run_cutoff(case, ctx)
     raise HarnessError("unknown case kind %r" % kind)
 
 
@@ -414,6 +455,8 @@ def _run_seq(case, ctx):
                 # an identifier followed by a constant (member names cannot start with a digit): not well-formed
                 r.extra["skipped-identifier-then-constant"] += 1
                 continue
+            if any(f in SPANNING for f in frags):
+                r.branches["noncode-spans-lines"] += 1
             blk.run(src)
     blk.close("seq%d" % L)
     if not r.samples and blk.n:
@@ -596,6 +639,122 @@ def _run_e2e(case, ctx):
     return r
 
 
+def _run_cutoff(case, ctx):
+    """
+    Every built precision (float32, float64, long double) x one / two dispersed parameters x the cutoff menu.
+    Reference: the weighted mean assembled here, in double, from SINGLE-POINT evaluations of the SAME library over
+    the mesh points whose weight (computed in double) exceeds the cutoff.  The library under test and the reference
+    evaluate the identical function at identical (rounded) parameter values, so model conditioning drops out and
+    what remains is (a) which mesh points qualify and (b) accumulation rounding, bounded a priori by
+    2 (n + 8) u sum|terms| with u the unit roundoff of the precision and n the number of qualifying points.
+    The menu is moved away from any mesh weight by at least 1e-3 relative (float32 stores weights to 6e-8).
+    """
+    from sasmodels.direct_model import call_kernel
+    from .. import refmodel
+    r = R()
+    name = case["model"]
+    info = build.info(name)
+    fk = {"model": name, "clause": "cutoff"}
+    by_name = {p.name: p for p in info.parameters.call_parameters}
+    pds = _pd_names(info)[:1 if case["pd"] == "one" else 2]
+    cfg = PD_ONE if case["pd"] == "one" else PD_TWO
+    width = cfg["width"] * ctx.rot([1.0, 0.85, 1.1, 0.95], 0)
+    base = {p.name: float(p.default) for p in info.parameters.call_parameters if not p.name.endswith(("_M0", "_mtheta", "_mphi"))
+            and p.name not in ("up_frac_i", "up_frac_f", "up_theta", "up_phi")}
+    base["scale"], base["background"] = 1.7, 0.25
+    disp = {}
+    pars = dict(base)
+    for p in pds:
+        x, w = refmodel.par_dist(by_name[p], "gaussian", cfg["n"], width, cfg["nsigma"], base[p])
+        disp[p] = (x, w)
+        pars[p + "_pd"], pars[p + "_pd_n"], pars[p + "_pd_nsigma"], pars[p + "_pd_type"] = width, cfg["n"], cfg["nsigma"], "gaussian"
+    grids = [list(zip(*disp[p])) for p in pds]
+    mesh = []
+    for combo in itertools.product(*grids):
+        w = 1.0
+        for v, wi in combo:
+            w *= wi
+        mesh.append((float(w), [float(v) for v, _ in combo]))
+    weights = np.array(sorted(w for w, _ in mesh))
+    # the cutoff menu for this mesh
+    lo, hi = int(0.25 * len(weights)), int(0.75 * len(weights))
+    with np.errstate(all="ignore"):
+        gaps = weights[lo + 1:hi + 1] / weights[lo:hi]
+    j = int(np.argmax(gaps)) + lo
+    menu = []
+    for c in CUTOFFS:
+        c = float(np.sqrt(weights[j] * weights[j + 1])) if c == "gap" else float(c)
+        for _ in range(40):
+            if c == 0.0 or np.min(np.abs(weights / c - 1.0)) > 1e-3:
+                break
+            c *= 1.0041
+        else:
+            r.inconc("no cutoff clear of the mesh weights")
+            continue
+        menu.append(c)
+    q = np.array(Q)
+    for dt in ("float32", "float64", "longdouble"):
+        m = build.model(name, dt if dt != "float64" else "double")
+        k_ref, k_impl = m.make_kernel([q]), m.make_kernel([q])
+        nq = len(q)
+        nout = 2 if info.have_Fq else 1
+        # single-point evaluations, once per precision
+        points = []
+        point = dict(base, scale=1.0, background=0.0)
+        for w, vals in mesh:
+            for p, v in zip(pds, vals):
+                point[p] = v
+            points.append((w, refmodel.raw_point(k_ref, point)))
+        for c in menu:
+            sw = sshell = 0.0
+            sF2 = np.zeros(nq)
+            nqual = 0
+            for w, pt in points:
+                if not (w > c) or pt["w"] == 0.0:
+                    continue
+                nqual += 1
+                sw += w
+                sF2 += w * pt["F2"]
+                sshell += w * pt["shell"]
+            call = ("call_kernel(load_model(%r, dtype=%r).make_kernel([%s]), %s, cutoff=%r)"
+                    % (name, dt, Q, {k: v for k, v in sorted(pars.items()) if "_pd" in k}, c))
+            try:
+                with np.errstate(all="ignore"):
+                    impl = np.array(call_kernel(k_impl, dict(pars), cutoff=c), float)
+                sw_impl = float(k_impl.result[nout * nq])
+            except Exception as exc:  # noqa
+                r.fail("%s raised %r" % (call, exc), dict(fk, dtype=dt))
+                continue
+            br = ["cutoff-" + dt]
+            if 0 < nqual < len(mesh):
+                br.append("cutoff-splits-mesh")
+            if nqual == 0:
+                br.append("cutoff-rejects-all")
+            bound = 2.0 * (nqual + 8) * U[dt]
+            if nqual == 0 or sw == 0.0:
+                ref = np.full(nq, base["background"])
+                mag = np.full(nq, abs(base["background"]))
+            else:
+                vs = sshell / sw if sshell != 0 else 1.0
+                ref = base["scale"] * (sF2 / sw) / vs + base["background"]
+                mag = np.abs(base["scale"] * (sF2 / sw) / vs) + abs(base["background"])
+            bad = None
+            if abs(sw_impl - sw) > bound * max(sw, 1e-300) + 1e-300:
+                bad = ("total weight of the qualifying mesh points = %r, reference sum over the %d of %d points with "
+                       "weight > cutoff = %r (relative difference %.3g, a-priori bound %.3g)"
+                       % (sw_impl, nqual, len(mesh), sw, abs(sw_impl - sw) / max(sw, 1e-300), bound))
+            elif not np.all(np.abs(impl - ref) <= 2 * bound * mag):
+                with np.errstate(all="ignore"):
+                    bad = ("I(q) = %s, reference mean over the %d of %d qualifying points = %s (relative difference %.3g, "
+                           "a-priori bound %.3g)" % (impl, nqual, len(mesh), ref, float(np.max(np.abs(impl - ref) / mag)), 2 * bound))
+            if bad:
+                r.fail("%s: %s" % (call, bad), dict(fk, dtype=dt, cutoff="zero" if c == 0 else "positive"), branches=br)
+            else:
+                r.ok(nt=bool(0 < nqual), outcome="cutoff:%s:%s" % (dt, "all" if nqual == len(mesh) else "some" if nqual else "none"),
+                     branches=br, trans=len(mesh) + 1)
+    return r
+
+
 def finish(ctx, report):
     n = len(build.compiled_models())
     report.require("model-sources", n, "generated model sources judged")
@@ -609,6 +768,10 @@ def finish(ctx, report):
     report.require("half-refused", 1, "half precision refused by the DLL driver")
     report.require("snippets", len(SNIPPETS), "property-text snippets")
     report.require("directive-lines", 100, "directive lines")
+    report.require("noncode-spans-lines", 500, "strings with a comment / string literal that spans lines")
+    report.require("cutoff-float32", 20, "float32 kernels with dispersity and a cutoff")
+    report.require("cutoff-longdouble", 20, "long double kernels with dispersity and a cutoff")
+    report.require("cutoff-splits-mesh", 20, "cutoffs that leave some mesh points in and some out")
     if report.extra.get("model-type-keywords", 0) < 10000 or report.extra.get("model-float-literals", 0) < 5000:
         report.vacuous.append("too few keywords/literals seen in model sources: %s" % dict(report.extra))
     report.coverage["known_limitations"] = [
